@@ -133,30 +133,80 @@ func c13Resolve(c *core.Ctx, rule string) *c13roles {
 }
 
 // keySources: the struct fields whose loads flow into v (through string concatenation, conversions, pure format
-// calls, local variable cells incl. captured ones).
+// calls, local variable cells incl. captured ones, and repository helpers: the results of a statically resolved callee
+// with a body are followed into the callee, its parameters are bound back to the arguments of that very call).
 func keySources(v ssa.Value, fn *ssa.Function, seen map[ssa.Value]bool, out map[*types.Var]bool) {
-	if v == nil || seen[v] {
+	w := &keyWalk{seen: map[keyAt]bool{}, ctxs: map[keyAt]*keyCtx{}, out: out}
+	w.walk(v, nil)
+}
+
+// keyCtx is the chain of calls through which the walk descended into the current function.
+type keyCtx struct {
+	call  *ssa.Call
+	up    *keyCtx
+	depth int
+}
+
+type keyAt struct {
+	v   ssa.Value
+	ctx *keyCtx
+}
+
+type keyWalk struct {
+	seen map[keyAt]bool
+	ctxs map[keyAt]*keyCtx
+	out  map[*types.Var]bool
+}
+
+func (w *keyWalk) enter(call *ssa.Call, up *keyCtx) *keyCtx {
+	k := keyAt{call, up}
+	if c := w.ctxs[k]; c != nil {
+		return c
+	}
+	d := 1
+	if up != nil {
+		d = up.depth + 1
+	}
+	c := &keyCtx{call: call, up: up, depth: d}
+	w.ctxs[k] = c
+	return c
+}
+
+func (w *keyWalk) walk(v ssa.Value, ctx *keyCtx) {
+	if v == nil || w.seen[keyAt{v, ctx}] {
 		return
 	}
-	seen[v] = true
+	w.seen[keyAt{v, ctx}] = true
 	switch x := v.(type) {
 	case *ssa.BinOp:
-		keySources(x.X, fn, seen, out)
-		keySources(x.Y, fn, seen, out)
+		w.walk(x.X, ctx)
+		w.walk(x.Y, ctx)
 	case *ssa.Phi:
 		for _, e := range x.Edges {
-			keySources(e, fn, seen, out)
+			w.walk(e, ctx)
+		}
+	case *ssa.Extract:
+		if call, ok := x.Tuple.(*ssa.Call); ok {
+			w.call(call, x.Index, ctx)
 		}
 	case *ssa.Call:
-		for _, a := range x.Call.Args {
-			keySources(a, fn, seen, out)
+		w.call(x, 0, ctx)
+	case *ssa.Parameter:
+		// bound to the argument of the call the walk came through
+		if ctx == nil || ctx.call.Call.StaticCallee() != x.Parent() {
+			return
+		}
+		for i, p := range x.Parent().Params {
+			if p == x && i < len(ctx.call.Call.Args) {
+				w.walk(ctx.call.Call.Args[i], ctx.up)
+			}
 		}
 	case *ssa.Convert:
-		keySources(x.X, fn, seen, out)
+		w.walk(x.X, ctx)
 	case *ssa.ChangeType:
-		keySources(x.X, fn, seen, out)
+		w.walk(x.X, ctx)
 	case *ssa.MakeInterface:
-		keySources(x.X, fn, seen, out)
+		w.walk(x.X, ctx)
 	case *ssa.Slice:
 		// variadic argument array: the values stored into its elements
 		if a, ok := x.X.(*ssa.Alloc); ok {
@@ -164,35 +214,53 @@ func keySources(v ssa.Value, fn *ssa.Function, seen map[ssa.Value]bool, out map[
 				if ia, ok := r.(*ssa.IndexAddr); ok {
 					for _, r2 := range core.Referrers(ia) {
 						if st, ok := r2.(*ssa.Store); ok && st.Addr == ssa.Value(ia) {
-							keySources(st.Val, fn, seen, out)
+							w.walk(st.Val, ctx)
 						}
 					}
 				}
 			}
 		} else {
-			keySources(x.X, fn, seen, out)
+			w.walk(x.X, ctx)
 		}
 	case *ssa.UnOp:
 		if x.Op != token.MUL {
-			keySources(x.X, fn, seen, out)
+			w.walk(x.X, ctx)
 			return
 		}
 		switch a := x.X.(type) {
 		case *ssa.FieldAddr:
-			out[core.FieldOfAddr(a)] = true
+			w.out[core.FieldOfAddr(a)] = true
 		case *ssa.Alloc:
 			for _, st := range storesToCell(a) {
-				keySources(st.Val, st.Parent(), seen, out)
+				w.walk(st.Val, ctx)
 			}
 		case *ssa.FreeVar:
 			if b := closureBinding(x.Parent(), a); b != nil {
 				if al, ok := b.(*ssa.Alloc); ok {
 					for _, st := range storesToCell(al) {
-						keySources(st.Val, st.Parent(), seen, out)
+						w.walk(st.Val, ctx)
 					}
 				}
 			}
 		}
+	}
+}
+
+// call: result #idx of a call. A repository function with a body is entered (its returned values, parameters bound to
+// this call's arguments); anything else (library formatters, dynamic calls) is treated as a pure function of its arguments.
+func (w *keyWalk) call(x *ssa.Call, idx int, ctx *keyCtx) {
+	callee := x.Call.StaticCallee()
+	if callee != nil && callee.Blocks != nil && core.InRepo(core.FuncPkg(callee)) && (ctx == nil || ctx.depth < 4) {
+		in := w.enter(x, ctx)
+		for _, b := range callee.Blocks {
+			if ret, ok := b.Instrs[len(b.Instrs)-1].(*ssa.Return); ok && idx < len(ret.Results) {
+				w.walk(ret.Results[idx], in)
+			}
+		}
+		return
+	}
+	for _, a := range x.Call.Args {
+		w.walk(a, ctx)
 	}
 }
 
